@@ -47,31 +47,58 @@ Props(c, cs, nr, s) ==
   /\ LosslessOf(c, cs, s) /\ PrefixOf(c, cs, s) /\ OnlyListedOf(c, cs) /\ NoDuplicatesOf(cs) /\ AscendingOf(cs)
   /\ AfterStartOf(c, cs) /\ ErrorCauseOf(c, cs, s) /\ DeclinedAtKOf(c, cs, s) /\ BoundedOf(c, nr, s)
 
+FinOf(c, rc) == IF rc # <<>> /\ rc[Len(rc)].e = "err" THEN "failed"
+                ELSE IF c.k > 0 /\ Len(rc) = c.k THEN "declined" ELSE "done"
+
 IsEvent(op) == l <= Len(Trace) /\ Trace[l].op = op
 
 TraceReset == IsEvent("reset") /\ l' = l + 1 /\ UNCHANGED vars
 
+\* One run of a listing value: p = [k, reqs, calls, after, runaway] against the stream str.
+PassOK(c, str, p) ==
+  LET ck == [c EXCEPT !.k = p.k]
+      o == Observed(str, p.k)
+      rc == [j \in 1..Len(p.calls) |-> RecordedCall(p.calls[j])]
+  IN /\ p.after = 0                 \* no call after a decline or after an error
+     /\ ~p.runaway
+     /\ SeqMatch(p.reqs, Reqs(o), ReqMatch)
+     /\ SeqMatch(p.calls, Yields(o), CallMatch)
+     \* the properties, evaluated on what the real iterator delivered
+     /\ Props(ck, rc, Len(p.reqs), FinOf(ck, rc))
+
+\* The listing value is obtained once and run several times (e.more: the runs after the
+\* first): the first run includes what creating the value did, the later ones do not.
 TraceList ==
   /\ IsEvent("list")
   /\ LET e == Trace[l]
          c == [kind |-> e.kind, a |-> e.a, k |-> e.k, node |-> Conv(e.node)]
          s == Stream(c.node, c.a, c.kind)
-         o == Observed(s, c.k)
+         s2 == Again(c.node, c.a, c.kind)
+         first == [k |-> e.k, reqs |-> e.reqs, calls |-> e.calls, after |-> e.after, runaway |-> e.runaway]
          rc == [j \in 1..Len(e.calls) |-> RecordedCall(e.calls[j])]
-         fin == IF rc # <<>> /\ rc[Len(rc)].e = "err" THEN "failed"
-                ELSE IF c.k > 0 /\ Len(rc) = c.k THEN "declined" ELSE "done"
-     IN /\ e.after = 0                 \* no call after a decline or after an error
-        /\ ~e.runaway
-        /\ SeqMatch(e.reqs, Reqs(o), ReqMatch)
-        /\ SeqMatch(e.calls, Yields(o), CallMatch)
-        \* the properties, evaluated on what the real iterator delivered
-        /\ Props(c, rc, Len(e.reqs), fin)
-        /\ cfg' = c /\ stream' = s /\ i' = Len(o) /\ calls' = rc /\ nreq' = Len(e.reqs) /\ st' = fin
+     IN /\ PassOK(c, s, first)
+        /\ \A j \in 1..Len(e.more) : PassOK(c, s2, e.more[j])
+        /\ cfg' = c /\ stream' = s /\ i' = Len(Observed(s, c.k)) /\ calls' = rc /\ nreq' = Len(e.reqs) /\ st' = FinOf(c, rc)
   /\ l' = l + 1
+
+\* Large universes (one hop over a registry holding all of 1..m): the calls are recorded as
+\* maximal runs of consecutive ranks, the specification is the closed form Big.
+BigPassOK(nd, m, a, p) ==
+  LET b == Big(nd, m, a, p.k) IN
+  /\ p.after = 0 /\ ~p.runaway
+  /\ SeqMatch(p.reqs, b.reqs, ReqMatch)
+  /\ Len(p.runs) = Len(b.runs) /\ \A j \in 1..Len(p.runs) : p.runs[j] = b.runs[j]
+  /\ IF b.err = "" THEN p.errs = <<>> ELSE Len(p.errs) = 1 /\ b.err \in ToSet(p.errs[1])
+TraceBig ==
+  /\ IsEvent("biglist")
+  /\ LET e == Trace[l]  nd == Conv(e.node) IN
+       /\ nd.t = "http" /\ nd.x.t = "mem" /\ nd.x.s = {} /\ e.m > 0    \* (the m items are not spelled out)
+       /\ \A j \in 1..Len(e.passes) : BigPassOK(nd, e.m, e.a, e.passes[j])
+  /\ l' = l + 1 /\ UNCHANGED vars
 
 TInit == /\ l = 2
          /\ cfg = [kind |-> "none"] /\ stream = <<>> /\ i = 0 /\ calls = <<>> /\ nreq = 0 /\ st = "start"
-TNext == TraceReset \/ TraceList
+TNext == TraceReset \/ TraceList \/ TraceBig
 TSpec == TInit /\ [][TNext]_<<l, vars>>
 Accepted == TLCGet("stats").diameter = Len(Trace)
 =============================================================================
